@@ -590,6 +590,31 @@ def boundary_inputs(tree, inputs, rng, limit=6):
     return out[:limit]
 
 
+def shared_objects(paths):
+    """mutable network-state objects (the dicts of code / storage / transient storage and the
+    StorageData objects in them) that more than one reported path holds a reference to, looked at
+    when the exploration is over.  Theorem C09_paths_separate: in the exploration model no two
+    explored paths hold an object in common."""
+    seen, out = {}, []
+    for i, p in enumerate(paths):
+        ex = p.ex
+        objs = [("code", ex.code), ("storage", ex.storage), ("transient_storage", ex.transient_storage)]
+        objs += [(f"storage[{_addr(k)}]", v) for k, v in ex.storage.items()]
+        objs += [(f"transient_storage[{_addr(k)}]", v) for k, v in ex.transient_storage.items()]
+        for name, o in objs:
+            first = seen.setdefault(id(o), (i, name))
+            if first[0] != i:
+                out.append(f"path {first[0]} ({paths[first[0]].kind}) and path {i} ({p.kind}) both hold the object {first[1]}")
+    return out
+
+
+def _addr(k):
+    try:
+        return hex(k.as_long())
+    except Exception:  # noqa: BLE001
+        return str(k)[:24]
+
+
 def check_tree(task):
     """task = (seed, tree, static, n_random) -> summary dict (picklable)"""
     seed, tree, static, n_random = task
@@ -609,7 +634,8 @@ def check_tree(task):
         calls += [("c09_model", e), ("c09_spec", e)]
     res = m.batch(calls) if calls else []
     out = {"n_paths": len(paths), "kinds": [p.kind for p in paths], "n_inputs": len(inputs), "flags": {k: v for k, v in flags.items() if k != "output"},
-           "impl_vs_ref": [], "impl_vs_model": [], "spec_vs_ref": [], "evaluated": 0, "markers": {}, "model_paths": {}, "clean_inputs": 0}
+           "impl_vs_ref": [], "impl_vs_model": [], "spec_vs_ref": [], "evaluated": 0, "markers": {}, "model_paths": {}, "clean_inputs": 0,
+           "shared_objects": shared_objects(paths)[:4]}
     stuck = [p.kind for p in paths if p.kind.startswith("stuck")]
     flagged = bool(stuck or flags["bounded_loops"] or flags["depth_cut"] or flags["crashed"])
     for k, (inp, ref) in enumerate(zip(inputs, refs)):
